@@ -196,7 +196,7 @@ func (w *World) CallSitesRaw(fn *ssa.Function) []CallSite {
 			for _, in := range b.Instrs {
 				if ci, ok := in.(ssa.CallInstruction); ok {
 					cc := ci.Common()
-					if cc.StaticCallee() == fn {
+					if calleeOf(cc) == fn {
 						out = append(out, CallSite{caller, in, "static"})
 						continue
 					}
@@ -253,7 +253,7 @@ func instrsOf(fn *ssa.Function, f func(ssa.Instruction)) {
 func callsIn(fn, callee *ssa.Function) []ssa.CallInstruction {
 	var out []ssa.CallInstruction
 	instrsOf(fn, func(in ssa.Instruction) {
-		if ci, ok := in.(ssa.CallInstruction); ok && ci.Common().StaticCallee() == callee {
+		if ci, ok := in.(ssa.CallInstruction); ok && calleeOf(ci.Common()) == callee {
 			out = append(out, ci)
 		}
 	})
